@@ -50,7 +50,8 @@ def tokenize_mt(text):
 class TypeCheck:
     def __init__(self, prog, ty, N, tags, samples, known, timeout_ms=180000):
         self.prog, self.ty, self.N, self.tags = prog, ty, N, tags
-        self.valid, self.invalid = samples
+        self.valid, self.invalid = samples[0], samples[1]
+        self.alts = samples[2] if len(samples) > 2 else {}
         self.known = [k for k in known if k.get("type") == ty]
         self.timeout_ms = timeout_ms
         self.results = []
@@ -113,6 +114,21 @@ class TypeCheck:
             fields.append((t, self.content_for(t, ok)))
         text = "".join(":%s:%s\r\n" % (t, c) for t, c in fields) + "-"
         return toks, fields, text
+
+    def variants(self, fields, limit=24):
+        """alternative concretisations: one token at a time gets another canonical valid content of a type that
+        serialises under the same tag (contents valid for several options, BIC-shaped names, ...)"""
+        out = []
+        for i, (t, c) in enumerate(fields):
+            seen = {c}
+            for ty in self.tag2types.get(t, []):
+                for alt in self.alts.get(ty, []):
+                    if alt not in seen:
+                        seen.add(alt)
+                        f2 = list(fields)
+                        f2[i] = (t, alt)
+                        out.append(f2)
+        return out[:limit]
 
     # -- evaluation of a concrete replay outcome against the property -----------------------------
     def judge(self, kind, fields, out, extra=None):
@@ -209,6 +225,15 @@ class TypeCheck:
                 extra = {"index": bad}
             out = replay_batch([{"op": "block4", "type": self.ty, "text": text}], "dev")[0]
             why = self.judge(kind, fields, out, extra)
+            if not why and kind != "invalid":
+                vs = self.variants(fields)
+                texts = ["".join(":%s:%s\r\n" % (t, c) for t, c in f2) + "-" for f2 in vs]
+                outs2 = replay_batch([{"op": "block4", "type": self.ty, "text": tx} for tx in texts], "dev") if texts else []
+                for f2, tx, o2 in zip(vs, texts, outs2):
+                    w2 = self.judge(kind, f2, o2, extra)
+                    if w2:
+                        fields, text, out, why = f2, tx, o2, w2
+                        break
             tried.append({"tokens": toks, "text": text, "real": {k: out.get(k) for k in ("ok", "mt", "display")}, "violation": why})
             if why:
                 res["verdict"] = "sat"
@@ -433,7 +458,7 @@ def run_all(which, N_for, known, jobs=12, only=None, seed=0):
         types = [t for t in types if t in only]
     missing_spec = [t for t in types if t not in spec_mod.LAYOUTS]
     valid, invalid = samples_mod.discover(sorted(tags), tags)
-    tasks = [(ty, N_for(ty), which, known, (valid, invalid), seed) for ty in types if ty in spec_mod.LAYOUTS]
+    tasks = [(ty, N_for(ty), which, known, (valid, invalid, dict(samples_mod.ALT)), seed) for ty in types if ty in spec_mod.LAYOUTS]
     # longest first
     tasks.sort(key=lambda t: -len(spec_mod.LAYOUTS[t[0]]))
     with mp.Pool(min(jobs, len(tasks))) as pool:
